@@ -84,17 +84,14 @@ def mofun_cli(inputpath, outputpath,
             print("Found %d instances of the search_pattern in the structure" % len(results))
             print(results)
 
-    # set framework elements to specified element-only works on ASE exports
-    if framework_element is not None:
-        atoms.symbols[atoms.atom_groups == 0] = framework_element
-
     if outputpath.suffix in ['.lmpdat', '.mol', '.cif']:
         atoms.save(outputpath)
     else:
         print("INFO: Trying output using ASE")
         aseatoms = atoms.to_ase()
+        # set framework elements to specified element-only works on ASE exports
         if framework_element is not None:
-            aseatoms.symbols[atoms.atom_groups == 0] = framework_element
+            aseatoms.symbols[atoms.groups == 0] = framework_element
 
         aseatoms.set_pbc(True)
         aseatoms.write(outputpath)
